@@ -16,7 +16,10 @@ import (
 
 	"github.com/ogen-go/ogen"
 	"github.com/ogen-go/ogen/gen"
+	"github.com/ogen-go/ogen/internal/ogenzap"
 )
+
+var _ ogenzap.Options
 
 var _ *zap.Logger
 var _ io.Reader
@@ -127,3 +130,44 @@ func cfgExists(p string) bool {
 //@   ensures explicit: cfgPath != "" && cfgReadFails(cfgPath) ==> err != nil
 //@   ensures found:    cfgPath == "" && cfgExists(firstDefaultCfg) && cfgReadFails(firstDefaultCfg) ==> err != nil
 //@   ensures nofs:     vSeqEq(vLogStr("fs"), old(vLogStr("fs")))
+
+// ---------------------------------------------------------------------------
+// The tail of run(): configuration, spec location, generation - the part of the command between flag
+// parsing and exit. run() as a whole is outside the verifier's reach (flag package, pprof, closures);
+// its last statements, from the loadConfig call to the end, are extracted MECHANICALLY on every run,
+// verbatim, as a function of their own (directive below; dropped: everything of run() before the
+// loadConfig call; rewritten: nothing but the final `return nil` is appended). Contract: an explicit
+// configuration that cannot be read, or a spec that cannot be read, makes the command fail WITHOUT any
+// file-system event (generate is never reached), and every failure of generate is passed on as a failure.
+// ---------------------------------------------------------------------------
+
+//@ extract verifRunTail(cfgPath *string, logger *zap.Logger, specPath string, packageName *string, targetDir *string, clean *bool, logOptions ogenzap.Options) (rerr error)
+//@ xfrom main.go run
+//@ xstmt opts, err := loadConfig(*cfgPath, logger)
+//@ xupto if err := generate(
+//@ xtail return nil
+
+// specUnreadable: the verdict of Options.SetLocation (reads the spec from the path or URL), a function of the path.
+func specUnreadable(p string) bool {
+	var o gen.Options
+	_, err := o.SetLocation(p, gen.RemoteOptions{})
+	return err != nil
+}
+
+//@ func specUnreadable(p string) (r bool)
+//@   trusted wrapper around gen.Options.SetLocation (file / URL read), an uninterpreted predicate of the path here
+//@   pure
+
+//@ extern func (o *gen.Options) SetLocation(p string, opts gen.RemoteOptions) (data []byte, err error)
+//@   modifies o.Parser
+//@   ensures verdict: (err != nil) == specUnreadable(p)
+
+//@ func handleGenerateError(w io.Writer, color bool, err error) (r bool)
+//@   trusted prints a diagnostic to w (standard error); no file-system event
+
+//@ func verifRunTail(cfgPath *string, logger *zap.Logger, specPath string, packageName *string, targetDir *string, clean *bool, logOptions ogenzap.Options) (rerr error)
+//@   requires flags: cfgPath != nil && packageName != nil && targetDir != nil && clean != nil && logger != nil
+//@   modifies log:fs
+//@   ensures config: *cfgPath != "" && cfgReadFails(*cfgPath) ==> rerr != nil && vSeqEq(vLogStr("fs"), old(vLogStr("fs")))
+//@   ensures spec:   specUnreadable(specPath) ==> rerr != nil && vSeqEq(vLogStr("fs"), old(vLogStr("fs")))
+//@   ensures quiet:  rerr == nil ==> !specUnreadable(specPath)
